@@ -463,6 +463,12 @@ func l7(n int) [][]dump.File {
 		out = append(out, scale.Wide(n), scale.Imports(n), scale.ManyUses(n), scale.ManyAugments(n), scale.ManyDeviations(n), scale.ManyModuleIdentities(n),
 			[]dump.File{scale.Counts(n)}, []dump.File{scale.ManyLeaves(n)}, []dump.File{la})
 	}
+	if n <= 64 {
+		out = append(out, scale.AugmentLadder(n), scale.EqualNames(n))
+	}
+	for _, k := range []int{1, 9, 40} {
+		out = append(out, []dump.File{scale.GroupingChainErrors(n, k)})
+	}
 	if la, _ := scale.LongArgs(8 * n); n > 257 {
 		out = append(out, []dump.File{la})
 	}
